@@ -13,13 +13,13 @@ class Stop(Exception):
     pass
 
 
-def schedule(idx, syscall_valid=1, syscall_no=1, trace=0, prints=None):
+def schedule(idx, syscall_valid=1, syscall_no=1, trace=0, prints=None, init_clk=0, init_rst=0):
     """Interpret hextb.cpp's run() on its own scalars with the DUT outputs chosen adversarially; returns
     (list of (time, i_clk, i_rst) at each eval(), list of (time, i_clk, i_rst) at each handleSyscall())."""
     f = idx.func('run')
     evals, syscalls = [], []
     ctx = Obj('VerilatedContext', {'time': const(64, False, 0)}, 'contextp')
-    top = Obj('Vhex_pkg', {'i_clk': const(8, False, 0), 'i_rst': const(8, False, 0),
+    top = Obj('Vhex_pkg', {'i_clk': const(8, False, init_clk), 'i_rst': const(8, False, init_rst),
                            'o_syscall_valid': const(8, False, syscall_valid), 'o_syscall': const(8, False, syscall_no)}, 'top')
     # internal DUT state that the testbench may look at (tracing): unknown values, recognisable by their source tag
     dut = lambda w, nm: ivinterp.IV(w, False, 0, (1 << w) - 1, None, 'dut:' + nm)
@@ -113,6 +113,25 @@ def run(rep, tier):
                 ('memory write enabled during reset: %s' % [(w[0], repr(w[1])) for w in live]) if live else
                 ('registers under reset: %s' % {k: repr(v) for k, v in r['next'].items()}) if not regs_ok else 'registers cleared, write enable false',
                 nontrivial=(b >> 4) in (2, 8))
+    # R10: the testbench drives its input pins itself: the schedule does not depend on what they hold at power-on
+    rep.rule('R10', 'the (time, clock, reset) schedule of evaluations and serviced system calls that run() produces is the same for every '
+             'power-on value of the DUT input pins i_clk and i_rst (Verilator randomises them too): run() assigns both before it first '
+             'reads or evaluates them', floor=3)
+    tbx = cast.load('hextb.cpp')
+    base = schedule(tbx)
+    for ck, rs in ((1, 0), (0, 1), (1, 1)):
+        try:
+            got = schedule(tbx, init_clk=ck, init_rst=rs)
+        except (AnalysisBroken, NeedSplit) as e:
+            rep.undecided('R10', 'power-on i_clk=%d i_rst=%d' % (ck, rs), 'schedule not interpreted: %s' % e, pos(tbx.func('run').node) + ' run (hextb.cpp)')
+            continue
+        same = got == base
+        first = next((i for i, (a_, b_) in enumerate(zip(base[0], got[0])) if a_ != b_), None)
+        rep.add('R10', 'power-on i_clk=%d i_rst=%d' % (ck, rs), same, pos(tbx.func('run').node) + ' run (hextb.cpp)',
+                'same schedule as with both pins at 0' if same else
+                'the schedule differs from the one with both pins at 0 (first difference at evaluation %s: %s instead of %s): clock phase / reset '
+                'length depend on the randomised pin state' % (first, got[0][first] if first is not None and first < len(got[0]) else '?',
+                                                              base[0][first] if first is not None else '?'))
     # R9: one clock / reset domain (import of the connection instances of C03-R2)
     rep.rule('R9', 'processor and memory are clocked and reset by the top-level i_clk / i_rst themselves: a memory clocked by a derived clock '
              '(~i_clk) takes its stores on the other edge, so a store by the first instruction after reset release falls into the reset '
